@@ -228,6 +228,47 @@ def rule_skip(E, R):
         R.check(flds == {"lhs", "op"}, rule, "ast::field_expr::ComparisonExpr", "serializes both of its fields", str(sorted(flds)))
 
 
+def rule_paren(E, R):
+    rule = "R07-paren"
+    fn = "ast::logical_expr::LogicalExpr::lex_more_with_precedence"
+    h = E.hir(fn)
+    if not h:
+        return R.cannot(rule, fn, "anchor not found")
+    # the chain-building match: exactly {same-operator Combining -> push, anything else -> new Combining [lhs, rhs]}
+    target = None
+    for m in exprs(h["body"], "Match", into_closures=False):
+        vs = [pat_variants(a["pat"]) for a in m["arms"]]
+        if any(v and v[0].endswith("LogicalExpr::Combining") for v in vs) and any(
+                s_ for a in m["arms"] for s_ in exprs(a["body"], "Struct") if norm(s_["res"].get("path", "")).endswith("LogicalExpr::Combining")):
+            target = m
+    if target is None:
+        return R.cannot(rule, fn, "chain-building match not found")
+    kinds = []
+    for a in target["arms"]:
+        v = pat_variants(a["pat"])
+        nested = [pat_variant(q) for q in walk(a["pat"]) if q is not a["pat"] and q.get("k") in ("PStruct", "PTupleStruct")]
+        nested = [x for x in nested if x and "LogicalExpr::" in x or (x and "ParenthesizedExpr" in x)]
+        kinds.append((last_seg(v[0]) if v else "_", "guard" in a, [last_seg(x) for x in nested]))
+    want = [("Combining", True, []), ("_", False, [])]
+    R.check(kinds == want, rule, fn, "operands are merged into a chain only when the left operand *is* a same-operator chain",
+            "arms %s: any other merging arm (e.g. looking through parentheses) erases structure from the AST and its JSON" % kinds, target["sp"])
+    # no parser function takes a parenthesised / unary / quantifier node apart again
+    n = 0
+    for hb in E.hir_list:
+        if "body" not in hb:
+            continue
+        p_ = norm(hb["path"])
+        if not re.search(r"::lex_|::lex$|lex_with", p_) or "::tests::" in p_:
+            continue
+        for q in walk(hb["body"]):
+            if q.get("k") in ("PStruct", "PTupleStruct", "PBox"):
+                v = pat_variant(q) or ""
+                if v.endswith("LogicalExpr::Parenthesized") or v.endswith("logical_expr::ParenthesizedExpr"):
+                    n += 1
+                    R.violation(rule, p_, "the parser destructures a parenthesised node", "parentheses must stay visible as nesting", hb["span"])
+    R.check(n == 0, rule, "parser", "no lexing function looks inside an already built parenthesised node")
+
+
 def rule_hashwrite(F, R):
     rule = "R07-hashwrite"
     X = F.ffi
@@ -263,6 +304,7 @@ def run(F, R, tier):
     rule_eqhash(E, R)
     rule_opnames(E, R)
     rule_skip(E, R)
+    rule_paren(E, R)
     rule_hashwrite(F, R)
     # flattening
     import C01
